@@ -213,11 +213,11 @@ Proof.
   cbn [to_be]. rewrite Nat2Z.inj_succ, Z.pow_succ_r by lia.
   assert (Hp : 0 < 256 ^ Z.of_nat n) by (apply Z.pow_pos_nonneg; lia).
   rewrite Z.rem_mul_r by lia.
-  replace ((v mod 256 + 256 * ((v / 256) mod 256 ^ Z.of_nat n)) / 256)
-    with ((v / 256) mod 256 ^ Z.of_nat n).
-  2:{ rewrite Z.mul_comm, Z.div_add by lia. rewrite Z.div_small by (apply Z.mod_pos_bound; lia). lia. }
-  rewrite IHn. f_equal. f_equal.
-  rewrite Z.mul_comm, Z.mod_add by lia. apply Z.mod_mod. lia.
+  set (a := v mod 256). set (b := (v / 256) mod 256 ^ Z.of_nat n).
+  assert (Ha : 0 <= a < 256) by (apply Z.mod_pos_bound; lia).
+  replace ((a + 256 * b) / 256) with b by lia.
+  replace ((a + 256 * b) mod 256) with a by lia.
+  unfold b. rewrite IHn. reflexivity.
 Qed.
 
 Lemma lxor_div_256 : forall a b, Z.lxor a b / 256 = Z.lxor (a / 256) (b / 256).
@@ -293,7 +293,7 @@ Proof.
     + destruct (IHf (skipn 16 M)) as (bs & r & E & Hok & Hr).
       { rewrite skipn_length. lia. }
       exists (firstn 16 M :: bs), r. split; [|split].
-      * simpl. rewrite <- app_assoc, <- E. symmetry. apply firstn_skipn.
+      * cbn [concat]. rewrite <- app_assoc, <- E. symmetry. apply firstn_skipn.
       * constructor; auto. apply firstn_length_le. assumption.
       * assumption.
 Qed.
